@@ -141,7 +141,14 @@ func (db *DatabaseCollectionWithUser) storeAttachments(ctx context.Context, doc 
 			//  persist the attachment again, even though there is not an attachment on an ancestor.
 			if parentAttachments != nil {
 				if parentAttachment := parentAttachments[name]; parentAttachment != nil {
-					atts[name] = parentAttachment
+					if db.stubNamesOtherStoredContent(ctx, doc.ID, meta, parentAttachment) {
+						// The stub does not repeat the parent's attachment of this name: it names other content whose body
+						// is already stored for this document (a replicated revision whose attachment was verified against
+						// the stored body instead of being transferred again). Keep it, rather than the parent's.
+						meta["ver"] = AttVersion2
+					} else {
+						atts[name] = parentAttachment
+					}
 				}
 			} else if meta["digest"] == nil {
 				return nil, base.HTTPErrorf(400, "Missing digest in stub attachment %q", name)
@@ -150,6 +157,22 @@ func (db *DatabaseCollectionWithUser) storeAttachments(ctx context.Context, doc 
 	}
 
 	return newAttachments, nil
+}
+
+// stubNamesOtherStoredContent reports whether a stub carries a digest other than that of the parent revision's attachment
+// of the same name, and the body for that digest is stored for the document.
+func (db *DatabaseCollectionWithUser) stubNamesOtherStoredContent(ctx context.Context, docID string, stub map[string]any, parentAttachment any) bool {
+	digest, ok := stub["digest"].(string)
+	if !ok || digest == "" {
+		return false
+	}
+	if parentMeta, ok := parentAttachment.(map[string]any); ok {
+		if parentDigest, _ := parentMeta["digest"].(string); parentDigest == digest {
+			return false
+		}
+	}
+	_, err := db.GetAttachment(ctx, MakeAttachmentKey(AttVersion2, docID, digest))
+	return err == nil
 }
 
 // retrieveV2Attachments returns a map of attachment digests to attachment names. This attachment metadata that can be used for
